@@ -16,6 +16,30 @@ CHECKS = {
    design_ref='DESIGN.md 3.4, 6 (C09)',
    note='Trusts TLC, the JSON record parser and the Python oracle (DFS cycle test, edge check).',
    technique='TLA+ transcription + TLC exhaustive enumeration + spec-to-code replay'),
+ 'C03': dict(
+   engine='mutseq',
+   category='model_checking',
+   text=('Optimizer.tla transcribes AppMutator._preprocess_mutations (both passes, regrouping, the '
+         'object store that is rewritten in place) next to the reference semantics Sig!SimSeq; TLC '
+         'enumerates every simulation-valid sequence up to length 2-3 (quick) / 3-4 (thorough) over three '
+         'alphabets and evaluates OptAccepted, OptSameSig, OptSameData, OptLeavesDefsIntact, TwoPassAccepted, '
+         'TwoPassSameSig on each. Every (sampled when >budget) sequence is replayed on real SQLite databases '
+         'through three pipelines (one AppMutator per mutation; one for the sequence; Evolver+EvolveAppTask) and '
+         'judged against the one-at-a-time run: signature ==/Diff, schema, rows, str() of each definition.'),
+   design_ref='DESIGN.md 3.2, 6 (C03)',
+   note='Trusts TLC, the concretisation (absmodel.py) and the SQLite projection (dbproj.py). Known findings are matched by (class, predicted-by-spec, cause, hazards) fingerprints computed by the specification.',
+   technique='TLA+ transcription + TLC exhaustive enumeration + spec-to-code replay with one-at-a-time oracle'),
+ 'C18': dict(
+   engine='mutseq',
+   category='model_checking',
+   text=('Optimizer.tla models ModelMutator grouping, the op types each mutation schedules, the merge rule '
+         '(_are_ops_mergeable with Mergeable bound to the tuple found in the code) and which ops force a SQLite '
+         'rebuild; TLC checks RebuildsNotWorse and OneRebuildPerMergeableRun for every valid sequence in scope. '
+         'Replay counts CREATE TABLE "TEMP_TABLE" per table on the statement trace of the batched run and of the '
+         'one-at-a-time run, compares them with each other (verdict) and with the predicted plan (binding).'),
+   design_ref='DESIGN.md 3.2, 6 (C18)',
+   note='Trusts TLC and the statement recorder (connection.execute_wrapper). Tables linked by a RenameModel count as one table.',
+   technique='TLA+ transcription of the merge/rebuild plan + TLC + statement-trace replay'),
 }
 
 NOT_YET = {
@@ -57,6 +81,8 @@ def main():
         'engines': [
             {'name': 'graph', 'path': 'harness/engines/graph.py', 'serves_properties': ['C09'],
              'kind_free_text': 'TLC-enumerated dependency graphs replayed into DependencyGraph'},
+            {'name': 'mutseq', 'path': 'harness/engines/mutseq.py', 'serves_properties': ['C03', 'C18'],
+             'kind_free_text': 'TLC-enumerated mutation sequences replayed through three real pipelines on SQLite'},
         ],
         'checks': checks,
         'not_applicable': na,
